@@ -90,6 +90,21 @@ thread_local! {
     static KIND_COUNTS: RefCell<[u64; N_CALL_KINDS]> = const { RefCell::new([0; N_CALL_KINDS]) };
     static WATCHDOG_FIRED: Cell<bool> = const { Cell::new(false) };
     static QUIET: Cell<bool> = const { Cell::new(false) };
+    static SUSPENDED: Cell<bool> = const { Cell::new(false) };
+}
+
+struct Resume(bool);
+impl Drop for Resume {
+    fn drop(&mut self) {
+        SUSPENDED.with(|c| c.set(self.0));
+    }
+}
+/// run oracle-side code that calls into user code (estimates, key digests): such calls are
+/// neither numbered nor eligible for fault injection
+pub fn suspended<R>(f: impl FnOnce() -> R) -> R {
+    let prev = SUSPENDED.with(|c| c.replace(true));
+    let _g = Resume(prev);
+    f()
 }
 
 pub fn reset() {
@@ -155,6 +170,9 @@ pub fn quiet() -> bool {
 /// A numbered user-code call point. May panic (injected fault / watchdog).
 #[inline]
 pub fn user_call(kind: CallKind) {
+    if SUSPENDED.with(|c| c.get()) {
+        return;
+    }
     let n = CALLS.with(|c| {
         let n = c.get() + 1;
         c.set(n);
